@@ -414,6 +414,12 @@ func main() {
 	writeStrList("inferredNeeds", inferred, "helpers that mutate guarded state without taking the lock: inferred entry requirement (ghost lock of the class in Σ), verified at every translated call site")
 	writeStrList("needsWithoutCaller", uncalled, "of these, the functions without a translated caller (heap callbacks, closures run by other packages): their entry requirement is an assumption")
 	writeStrList("eitherLockHelpers", eitherLock, "helpers touching NFSv4.1 state guarded by `clientsLock or clientIncarnationState.lock` without taking either: these touches are not checked")
+	var exempt []string
+	for n, why := range t.guards.Exempt {
+		exempt = append(exempt, n+" — "+why)
+	}
+	sort.Strings(exempt)
+	writeStrList("guardExempt", exempt, "functions whose mutations are exempt from the guarded-by check (tools/lockskel/guards.json), with the reason")
 	fmt.Fprintf(&b, "/-- number of guarded-by obligations (`need` nodes) emitted -/\ndef touchCount : Nat := %d\n\n", countKind(rel, "need"))
 	b.WriteString("/-- Σ: function ↦ (locks required on entry, locks held on return in their place); a lock `1000*c+999` is the ghost of class `c` (\"my caller holds a lock of class c\") -/\ndef sigma : Sig := [")
 	for i, f := range rel {
